@@ -18,7 +18,7 @@ import shutil
 from concurrent.futures import ThreadPoolExecutor
 
 from .. import core, tlc, tlaparse
-from ..viewutil import Universe, Graph, Sandbox, cover_walks, shortest_path_to, res_matches, classify
+from ..viewutil import Universe, Graph, Sandbox, cover_walks, shortest_path_to, res_matches, classify, cli_argv
 
 WORKERS = int(os.environ.get("VERIF_WORKERS", "16"))
 SIG = {"D1": "create_linked_view:job_ids-empty:links-an-unselected-job",
@@ -55,8 +55,11 @@ def universes(quick, d5fixed=True):
           Universe("nested", nested, ["auto", "flat", "const"]),
           Universe("collide", collide, ["auto", "id"], orders=["asc", "desc"]),
           Universe("jobkey", jobkey, ["auto"], speckey="job"),
-          Universe("jobhet", jobhet, ["auto"], orders=["asc", "desc"])]
-    us[-1].max_inside = 2 if quick else 8      # (only matters while DEVIATION D5 is open: at most one / four escapes are followed up)
+          Universe("jobhet", jobhet, ["auto"], orders=["asc", "desc"]),
+          # the COMMAND LINE front: every action of this universe is `signac view ...` run as its own process
+          Universe("cli", hom[:3] if quick else hom[:4], ["cliauto", "tree"] if quick else ["cliauto", "tree", "flat", "const"])]
+    us[-1].cli = True
+    us[-2].max_inside = 2 if quick else 8      # (only matters while DEVIATION D5 is open: at most one / four escapes are followed up)
     for u in us:      # deviations reachable in the universe, in the order in which they are switched off for TLC's counterexamples
         u.devs = {"collide": ["D1", "D2"], "jobkey": ["D1", "D3"]}.get(u.name, ["D1"])
         if u.name == "jobhet":
@@ -182,7 +185,10 @@ def _want_for(want, a, ws, pre):
     return (res, links, dirs, sel) if res == "ok" else (res, pre[0], pre[1], sel)
 
 
-def _describe(uni, e):
+def _describe(uni, e, variant=0):
+    if e["op"] == "view" and e["a"]["kind"].startswith("cli"):
+        import shlex
+        return "$ signac " + " ".join(shlex.quote(str(x)) for x in cli_argv(uni, e["a"], variant)) + "   # selects %s" % [uni.sp_of[t] for t in uni.tokens if t in e["a"]["S"]]
     if e["op"] == "view":
         a = e["a"]
         ids = None if a["kind"] == "all" else [uni.sp_of[t] for t in (reversed(uni.tokens) if a["ord"] == "desc" else uni.tokens) if t in a["S"]]
@@ -193,7 +199,7 @@ def _describe(uni, e):
     return "%s %r" % (e["op"], uni.sp_of[e["j1"]])
 
 
-def _step(sb, uni, op, j1, j2, a, spell="list"):
+def _step(sb, uni, op, j1, j2, a, spell="list", variant=0):
     """execute one action on the sandbox -> (result class name, exception)"""
     if op == "add":
         sb.add(j1)
@@ -201,6 +207,8 @@ def _step(sb, uni, op, j1, j2, a, spell="list"):
         sb.remove(j1)
     elif op == "rekey":
         sb.rekey(j1, j2)
+    elif op == "view" and a["kind"].startswith("cli"):
+        return sb.cli_view(a, variant)
     elif op == "view":
         return sb.create_view(a, spell=spell)
     else:
@@ -234,7 +242,7 @@ def _judge_view(sb, uni, a, ws_tokens, pre, real_res, exc, obs, want, scratch=Tr
 
 
 def _script(uni, g, edge_ids, force_list=False):
-    return [{"op": g.edges[i]["op"], "j1": g.edges[i]["j1"], "j2": g.edges[i]["j2"], "spell": "list" if force_list else _spell(i, g.edges[i]["a"]),
+    return [{"op": g.edges[i]["op"], "j1": g.edges[i]["j1"], "j2": g.edges[i]["j2"], "spell": "list" if force_list else _spell(i, g.edges[i]["a"]), "variant": i,
              "a": {k: (sorted(v) if isinstance(v, frozenset) else v) for k, v in g.edges[i]["a"].items()}} for i in edge_ids]
 
 
@@ -254,7 +262,7 @@ def _run_walk(uname, walk, root, wid, stop_on_problem=True, force_list=False):
                 break                                # an earlier nondeterministic step went elsewhere: rest is re-planned
             pre = (_strip(obs[0]), obs[1])           # the view as observed after the previous step
             spell = "list" if force_list else _spell(eid, e["a"])
-            res, exc = _step(sb, uni, e["op"], e["j1"], e["j2"], e["a"], spell)
+            res, exc = _step(sb, uni, e["op"], e["j1"], e["j2"], e["a"], spell, eid)
             out["steps"] += 1
             out["keys"].add((uname, e["src"], repr(g.action_key(e)), spell))
             obs = sb.view()
@@ -272,7 +280,7 @@ def _run_walk(uname, walk, root, wid, stop_on_problem=True, force_list=False):
                         and ins == uni.inside_of(node["inside"]):
                     matched = ae
                     break
-            here = "universe %s, after %s: %s%s" % (uname, [_describe(uni, g.edges[i]) for i in walk[:n]], _describe(uni, e),
+            here = "universe %s, after %s: %s%s" % (uname, [_describe(uni, g.edges[i], i) for i in walk[:n]], _describe(uni, e, eid),
                                                     " [job_ids spelled as %s]" % spell if spell != "list" else "")
             rp = {"universe": uname, "quick": _G["__quick__"], "d5": _G.get("__d5__", True), "steps": _script(uni, g, walk[:n + 1], force_list)}
             if e["op"] != "view":
@@ -295,7 +303,7 @@ def _run_walk(uname, walk, root, wid, stop_on_problem=True, force_list=False):
                         for t in tags:
                             out["viol"].append((SIG.get(t, "view:model-deviation-" + t), "%s -> %s" % (here, text), rp))
                     else:
-                        out["viol"].append(("view:%s%s" % (kind, rerun), "%s -> %s" % (here, text), rp))
+                        out["viol"].append(("%sview:%s%s" % ("cli:" if getattr(uni, "cli", False) else "", kind, rerun), "%s -> %s" % (here, text), rp))
                 elif matched["dev"]:
                     out["drift"].append("%s: model took deviation %s but the requirement holds on the real execution" % (here, sorted(matched["dev"])))
                 cur, prev_action = matched["dst"], g.action_key(e)
@@ -307,7 +315,7 @@ def _run_walk(uname, walk, root, wid, stop_on_problem=True, force_list=False):
                 model = g.nodes[e["dst"]]
                 ml, md = uni.view_of(model["view"])
                 if kind is not None:
-                    out["viol"].append(("view:%s%s" % (kind, rerun), "%s -> %s (model: %s links=%s)" % (here, text, e["res"], dict(sorted(ml.items()))), rp))
+                    out["viol"].append(("%sview:%s%s" % ("cli:" if getattr(uni, "cli", False) else "", kind, rerun), "%s -> %s (model: %s links=%s)" % (here, text, e["res"], dict(sorted(ml.items()))), rp))
                 else:
                     out["drift"].append("%s: real execution meets the requirement but is not a step of the model (%s; model: %s links=%s dirs=%s)"
                                         % (here, text, e["res"], dict(sorted(ml.items())), sorted(md)))
@@ -602,13 +610,16 @@ def run(ctx):
     # ---- binding self-test -------------------------------------------------------------------------------
     hom = next((u for u in unis if u.name == "hom"), None)
     ctx.cov["binding_selftest"] = _selftest(ctx, hom) if hom else {"skipped (development run without the hom universe)": True}
+    cliu = next((u for u in unis if u.name == "cli"), None)
+    if cliu:      # the same three demonstrations with every step's view built by the real command line
+        ctx.cov["binding_selftest"].update({"cli_" + k: v for k, v in _selftest(ctx, cliu, "cli_all", "cliauto").items()})
     fresh = [v for v in ctx.violations if v.signature not in SIG.values()]
     if not all(ctx.cov["binding_selftest"].values()) and not fresh:      # (with fresh violations the untouched walk may fail too)
         raise core.MachineryError("binding self-test failed: %r" % ctx.cov["binding_selftest"])
     ctx.cov["exhaustive"] = "complete reachable state graphs of the listed universes; every edge executed"
 
 
-def _selftest(ctx, uni):
+def _selftest(ctx, uni, kind="all", ps="auto"):
     """a dropped step and a corrupted expectation must be noticed; an untouched walk must pass"""
     g, _, want = _G[uni.name]
     root = ctx.mkdtemp("selftest")
@@ -617,9 +628,9 @@ def _selftest(ctx, uni):
         return next(i for i in g.out[src] if pred(g.edges[i]))
     w = [find(g.init, lambda e: e["op"] == "add" and e["j1"] == "j1")]
     w.append(find(g.edges[w[-1]]["dst"], lambda e: e["op"] == "add" and e["j1"] == "j2"))
-    w.append(find(g.edges[w[-1]]["dst"], lambda e: e["op"] == "view" and e["a"]["kind"] == "all" and e["a"]["ps"] == "auto"))
+    w.append(find(g.edges[w[-1]]["dst"], lambda e: e["op"] == "view" and e["a"]["kind"] == kind and e["a"]["ps"] == ps))
     w.append(find(g.edges[w[-1]]["dst"], lambda e: e["op"] == "remove" and e["j1"] == "j2"))
-    w.append(find(g.edges[w[-1]]["dst"], lambda e: e["op"] == "view" and e["a"]["kind"] == "all" and e["a"]["ps"] == "auto"))
+    w.append(find(g.edges[w[-1]]["dst"], lambda e: e["op"] == "view" and e["a"]["kind"] == kind and e["a"]["ps"] == ps))
     ok = _run_walk(uni.name, w, root, "ok")
     # drop the remove step: the real project keeps j2, the last edge's expectations must no longer match
     g2_edges = [w[0], w[1], w[2], w[4]]
@@ -629,7 +640,7 @@ def _selftest(ctx, uni):
     except core.MachineryError:
         noticed_drop = True
     # corrupt one expected link target in the want table
-    key = (frozenset(["j1", "j2"]), "auto")
+    key = (frozenset(["j1", "j2"]), ps)
     saved = want[key]
     links = dict(saved[1])
     k0 = sorted(links)[0]
@@ -654,7 +665,9 @@ def replay(ctx, data):
         pre = (_strip(pre_l), pre_d)
         ws = sb.ws()
         ins_before = sb.inside()
-        res, exc = _step(sb, uni, st["op"], st["j1"], st["j2"], a, st.get("spell", "list"))
+        res, exc = _step(sb, uni, st["op"], st["j1"], st["j2"], a, st.get("spell", "list"), st.get("variant", 0))
+        if a["kind"].startswith("cli"):
+            print("$ signac " + " ".join(map(str, sb.last_cli[0])), "-> exit status", sb.last_cli[1], sb.last_cli[3].strip()[-200:])
         links, dirs, other = sb.view()
         print("%-6s %s -> %s%s\n        view links=%s dirs=%s" % (st["op"], st["j1"] + (" -> " + st["j2"] if st["j2"] else "") if st["op"] != "view" else
               "job_ids=%s%s path=%r order=%s" % ("None" if a["kind"] == "all" else sorted(a["S"]), " (as %s)" % st.get("spell", "list") if a["kind"] == "ids" else "",
